@@ -877,6 +877,7 @@ fn c04(ix: &Ix, f: &mut Findings) {
                 (S::InStop, HE::StopExit(_)) => S::Stopped,
                 (S::InStop, HE::CallPanic) => S::Dead,
                 (S::Stopped, HE::Ended) | (S::Dead, HE::Ended) => S::Over,
+                (S::Dead, HE::CallPanic) => S::Dead, // an in-flight call dropped by the unwinding hook
                 (S::Dead, HE::StopExit(Out::Panic)) => S::Dead,
                 (S::Dead, HE::RunDone(_, Out::Panic)) => S::Dead,
                 (st, ev) => {
@@ -1419,7 +1420,7 @@ fn c10(ix: &Ix, f: &mut Findings) {
         }
         let Some((_, res, t)) = &o.end else { continue };
         let t = *t;
-        let d = o.ts + o.to;
+        let d = o.ts.saturating_add(o.to);
         let x = &ix.actors[o.actor];
         let r_at = ix.hexit.get(&o.uid).map(|h| h.2);
         let ended_at = x.ended.as_ref().map(|e| e.2);
@@ -1780,7 +1781,7 @@ fn c14_15(ix: &Ix, f: &mut Findings) {
                         caller,
                         callee,
                         uid: *uid,
-                        deadline: if *to > 0 { Some(tnow + *to) } else { None },
+                        deadline: if *to > 0 { Some(tnow.saturating_add(*to)) } else { None },
                     },
                 );
                 let _ = i;
